@@ -1053,7 +1053,9 @@ FIRST_REQUEST = {"parse": "H1", "used": "UB", "expand": "ET", "revcontent": "ER"
 def infer_kinds(result):
     """item id -> kind of work item in Fetcher.tla's vocabulary, from what the item DID: the first
     request it issued; for items that issue none, what they spawned; for items that did nothing
-    at all, the shape of their arguments.  Raises HarnessMismatch for an item it cannot map."""
+    at all, the shape of their arguments.  An item that fits no kind keeps its method name as kind:
+    the trace spec has no such item and TLC rejects the run (a verdict about the code, never a
+    harness mismatch -- that is reserved for seams the harness hooks and cannot find)."""
     ops, meta = {}, {}
     for e in result["events"]:
         ops.setdefault(e["id"], []).extend(e["ops"])
@@ -1095,10 +1097,10 @@ def infer_kinds(result):
             elif not kid and len(gen) == 1 and strs and strs[0].startswith("http"):
                 k = "NB"                            # nothing new under that base path
         if k is None:
-            raise HarnessMismatch("cannot map work item %s%r (first request %r, spawned %r) to a kind of Fetcher.tla"
-                                  % (name, gen, req[2] if req else None, sorted(kinds.get(c, "?") for c in children.get(iid, []))))
-        if name in KIND and KIND[name] != k:
-            raise HarnessMismatch("work item %s%r behaves like %s, its method name says %s" % (name, gen, k, KIND[name]))
+            # the item did nothing the model knows for any kind: that is behaviour of the code under
+            # test, not a misfit of the harness -- keep today's kind for a known method name, else the
+            # bare name, and let TLC refuse the event
+            k = KIND.get(name, name)
         kinds[iid] = k
         return k
     for iid in sorted(meta):
@@ -1146,30 +1148,36 @@ def to_trace(case, result):
         lists = [g[1] for g in gen if g[0] == "l"]
         apis = [g[1] for g in gen if g[0] == "api"]
 
-        def need(seq, what):
-            if not seq:
-                raise HarnessMismatch("work item %s%r (%s) has no %s argument" % (name, gen, k, what))
-            return seq[0]
+        # Arguments are recorded as the code uses them.  Where the code iterates an argument
+        # (titles / revids / blocks), whatever iterable was passed is iterated the same way: a bare
+        # string yields its characters.  A shape no kind of the model has is still recorded (host
+        # "?", the strings as they are) so that TLC, not the harness, refuses the event.
+        def iterated():
+            if lists:
+                return list(lists[0])
+            return list(strs[1]) if len(strs) > 1 else []
         if k in ("FH", "FU", "UB"):
-            a, h = [need(strs, "name")] + list(need(lists, "list")), "local"
+            a, h = strs[:1] + iterated(), "local"
         elif k == "H1":
-            req = next(o for o in allops[iid] if o[0] == "req")
-            a, h = [req[2][1], str(req[2][2])], "local"
+            req = next((o for o in allops.get(iid, []) if o[0] == "req"), None)
+            a, h = ([req[2][1], str(req[2][2])] if req else strs), "local"
         elif k in ("ET", "ER"):
-            a, h = [need(strs, "title/revid")], "local"
+            a, h = strs[:1], "local"
         elif k == "II":
-            a, h = list(need(lists, "titles")), "local"
+            a, h = (list(lists[0]) if lists else list(strs[0]) if strs else []), "local"
         elif k == "DL":
             got = [o[1] for o in allops.get(iid, []) if o[0] == "spawnget"]
-            a, h = [got[0] if got else need(strs[::-1], "title")], ""
+            a, h = [got[0] if got else (strs[-1] if strs else "")], ""
         elif k == "NB":
-            a, h = [], ("shared" if need(strs, "path").startswith(SHARED_HOST) else "local")
+            a, h = [], ("shared" if strs and strs[0].startswith(SHARED_HOST) else "local" if strs else "?")
         elif k == "IP":
-            h = need(apis, "api")
-            a = [local_title(t, h) for t in need(lists, "titles")]
-        else:   # IE
-            h = need(apis, "api")
-            a = [local_title(need(strs, "title"), h)]
+            h = apis[0] if apis else "?"
+            a = [local_title(t, h) for t in (lists[0] if lists else list(strs[0]) if strs else [])]
+        elif k == "IE":
+            h = apis[0] if apis else "?"
+            a = [local_title(strs[0], h)] if strs else []
+        else:
+            a, h = strs + [x for l_ in lists for x in l_], "?"
         names[iid] = (k, a, h)
         return [k, a, h]
 
